@@ -25,7 +25,15 @@ def _universal_sort_key(*args):
 
 
 def sorted_scope_items(scope_dict):
-    return sorted(scope_dict.items(), key=lambda pair: _universal_sort_key(*pair[0]))
+    items = list(scope_dict.items())
+    try:
+        return sorted(items, key=lambda pair: _universal_sort_key(*pair[0]))
+    except TypeError:
+        # Scope values only have to be hashable and equatable, so values of one
+        # type may not be orderable. Fall back to a key that never compares them.
+        return sorted(
+            items, key=lambda pair: tuple((str(type(x)), str(x)) for x in pair[0])
+        )
 
 
 def get_scope_string(scope, *, add_zero_width_spaces=False):
